@@ -269,7 +269,7 @@ def check_C12(tier, replay):
     # (1) adversarial-order and random schedulers, all capacities
     for n in (2, 3, 4):
         circs = ej.fixed_small(n) + [ej.gen_circuit(rng, n, gates=5)]
-        reps = {2: 14, 3: 8, 4: 3}[n] if quick else {2: 60, 3: 40, 4: 20}[n]
+        reps = {2: 14, 3: 8, 4: 4}[n] if quick else {2: 60, 3: 40, 4: 20}[n]
         for k in range(reps):
             circ = circs[k % len(circs)]
             pe = k % n
